@@ -100,11 +100,14 @@ def positive(tier, seed):
                         if c != base[p]:
                             out.append(("dna", None, base[:p] + c + base[p + 1:]))
     # very long literals (beyond 64 machine words), where a macro might switch to another expansion strategy
-    for n in ([1000, 2049, 2100, 4097] if th else [2049, 2100]):
+    # (literals of more than about 5000 bits do not compile at all: bitvec's bitarr! recursion exhausts rustc's
+    # recursion limit - or, with a raised limit, rustc's stack. That is a compile-time resource error, never a
+    # wrong value, and lies outside this grammar.)
+    for n in ([1000, 2049, 2100, 2200] if th else [2049, 2100]):
         base = background(DNA, n, seed + 7000 + n)
         out.append(("dna", None, base))
         out.append(("dna", None, base[:n - 1] + DNA[(DNA.index(base[n - 1]) + 1) % 4]))
-    for n in ([513, 1025, 1100, 2049] if th else [1025, 1100]):
+    for n in ([513, 1025, 1100, 1150] if th else [1025, 1100]):
         base = background(IUPAC, n, seed + 7100 + n)
         out.append(("iupac", None, base))
         out.append(("iupac", None, IUPAC[(IUPAC.index(base[0]) + 1) % 16] + base[1:]))
